@@ -5,9 +5,9 @@ export MDPSIM_OUT=${MDPSIM_OUT:-/dev/shm/mdpsim-soak-out}
 export MDPSIM_WORKERS=${MDPSIM_WORKERS:-8}
 for s in $(seq $1 $2); do
   for p in C03 C06 C08 C09 C10 C11 C12; do
-    VERIF_SEED=$s timeout 7200 /venv/bin/python -m mdpsim.check --property $p --tier $tier > /tmp/soak_$p_$s.log 2>&1
+    VERIF_SEED=$s timeout 7200 /venv/bin/python -m mdpsim.check --property $p --tier $tier > /tmp/soak_${p}_${s}.log 2>&1
     rc=$?
-    echo "seed=$s $p rc=$rc $(grep -v WARNING /tmp/soak_$p_$s.log | grep -E 'VIOLATION|HARNESS|^\[' | tail -3 | tr '\n' ' ' | cut -c1-600)"
-    if [ $rc -ne 0 ]; then grep -v WARNING /tmp/soak_$p_$s.log | grep -B4 -E 'VIOLATION|HARNESS' | cut -c1-1200; cp -r $MDPSIM_OUT/replays /tmp/soak_replays_$s 2>/dev/null; fi
+    echo "seed=$s $p rc=$rc $(grep -v WARNING /tmp/soak_${p}_${s}.log | grep -E 'VIOLATION|HARNESS|^\[' | tail -3 | tr '\n' ' ' | cut -c1-600)"
+    if [ $rc -ne 0 ]; then grep -v WARNING /tmp/soak_${p}_${s}.log | grep -B4 -E 'VIOLATION|HARNESS' | cut -c1-1200; cp -r $MDPSIM_OUT/replays /tmp/soak_replays_$s 2>/dev/null; fi
   done
 done
